@@ -75,8 +75,11 @@ def recheck(ids):
                 print(sid, 'PATCH DOES NOT APPLY', (r.stdout + r.stderr)[-200:])
                 continue
             rep = {}
+            own_only = os.environ.get('KEEPSEED_OWN_ONLY') == '1'
             for i in range(1, 21):
                 pid = 'C%02d' % i
+                if own_only and pid != meta['property']:
+                    continue
                 rc, o = ctool.run_check(sd, pid)
                 if 'fact extraction failed' in o:
                     rep = {'error': o[-400:]}
@@ -86,7 +89,8 @@ def recheck(ids):
                     rep[pid] = fired[:6]
             own = meta['property']
             meta['caught_by'] = rep.get(own, [])
-            meta['also_reported_by'] = {k: v for k, v in rep.items() if k != own}
+            if not own_only:
+                meta['also_reported_by'] = {k: v for k, v in rep.items() if k != own}
             json.dump(meta, open(mp, 'w'), indent=1)
             print(sid, 'own:', meta['caught_by'][:2], 'others:', sorted(meta['also_reported_by']))
         finally:
